@@ -27,6 +27,7 @@ MODS = [M + f for f in (
     "upipe_m3u_reader.c", "upipe_void_source.c", "upipe_even.c", "upipe_trickplay.c", "upipe_play.c", "upipe_stream_switcher.c",
     "upipe_separate_fields.c", "upipe_row_split.c", "upipe_row_join.c", "upipe_ntsc_prepend.c", "upipe_rtp_pcm_pack.c", "upipe_audio_copy.c",
     "upipe_subpic_schedule.c", "upipe_crop.c", "upipe_video_blank.c", "upipe_audio_blank.c", "upipe_sine_wave_source.c",
+    "upipe_blit.c", "upipe_videocont.c", "upipe_audiocont.c", "upipe_audio_split.c", "upipe_audio_merge.c", "upipe_grid.c", "upipe_rtp_h264.c", "upipe_rtp_mpeg4.c", "upipe_sync.c",
 )]
 PIPEX = CORE + MODS + [E + "vmock_upump.c", E + "simfd.c"]
 
@@ -406,11 +407,27 @@ CAT_GENERIC2 = ("dejitter", "multicat_probe", "aes_decrypt", "aes_decrypt_clear"
                 "ts_psi_merge", "telx_framer", "s302_framer", "opus_framer", "void_source", "sine_wave_source", "separate_fields", "row_split", "ntsc_prepend",
                 "rtp_pcm_pack", "audio_copy", "crop", "video_blank", "audio_blank", "subpic_schedule",
                 "dejitter_sub", "subpic_schedule_sub", "play", "ts_psi_join",
-                "block_to_sound", "rtp_pcm_unpack", "m3u_reader", "row_join", "even", "trickplay", "stream_switcher")
+                "block_to_sound", "rtp_pcm_unpack", "m3u_reader", "row_join", "even", "trickplay", "stream_switcher",
+                "stream_switcher_ml", "blit", "videocont", "audiocont", "audio_split", "audio_merge", "grid", "rtp_h264", "rtp_mpeg4", "sync")
 CAT_ROWS += list(CAT_GENERIC2)
 # generic rows whose depth differs from (quick 4, thorough 5): input-subpipe rows need one more step (allocate the subpipe); ntsc_prepend moves 720x480 pictures
 CAT_GENERIC_DEPTH = {"dejitter_sub": (5, 6), "subpic_schedule_sub": (5, 6), "play": (5, 6), "ts_psi_join": (5, 6), "ntsc_prepend": (4, 4),
-                     "even": (5, 6), "trickplay": (5, 6), "stream_switcher": (6, 6)}
+                     "even": (5, 6), "trickplay": (5, 6), "stream_switcher": (6, 6),
+                     "stream_switcher_ml": (5, 6), "audio_merge": (5, 6), "grid": (5, 6), "sync": (5, 6)}
+# further jobs of a row that start from a non-initial state (seqx --prefix: operation numbers of the OP_ enum of pipex_cat.c) and, for the deep ones,
+# offer a sub-alphabet only (--only): (extra arguments, quick depth, thorough depth). The rows with a reference input and input subpipes need
+# 3 operations before anything can flow (allocate the subpipe, connect the output, define the flow).
+#   29 alloc_sub   8 set_output(S0)   0 set_flow_def(F1)   17 option 1 value 0 (videocont: latency of two buffer periods)
+#   0/1 set_flow_def(F1/F2)  3/7 input (plain / shared)  38 the reference input's pump  11 toggle S0  10/8 set_output(NULL/S0)  31 release(sub0)  40 release
+_CONT_ONLY = "0,1,3,7,38,11,10,8,31,29,40"
+#   blit: 33 dispatch(ready pump 0)   14 / 18 / 22 / 26 one value of each option of subpipe 0 (rect, alpha, alpha threshold, z-index)
+CAT_EXTRA = {"blit": [(["--prefix", "29,8,0", "--only", "0,1,3,7,38,33,11,31,14,18,22,26,40"], 4, 5)],
+             "audiocont": [(["--prefix", "29,8,0", "--only", _CONT_ONLY], 5, 6)],
+             # grid: grid input and grid output allocated, the output's output connected (30 sub.set_output)
+             "grid": [(["--prefix", "29,29,30"], 4, 5)],
+             # sync: sound subpipe allocated, both outputs connected, sound definition given
+             "sync": [(["--prefix", "29,8,30,0"], 4, 5)],
+             "videocont": [(["--prefix", "29,8,0", "--only", _CONT_ONLY], 5, 6), (["--prefix", "29,8,0,17", "--only", _CONT_ONLY], 5, 6)]}
 # rows left out of C20: the sources start on any control command, a getter included
 C20_EXCLUDED = ("void_source", "sine_wave_source")
 CAT_HEAVY = {"buffer": 1, "setattr>delay>idem": 1, "ts_split": 1, "ts_psi_split": 1}
@@ -445,9 +462,14 @@ def _cat_jobs(oracle, tier, rows=CAT_ROWS, pools=(0, 2)):
                 axes.append((pools[0], 2, d - 1))
         for (pool, prov, depth) in axes:
             jobs.append(("pipex_cat", ["--row", r, "--oracle", oracle, "--pool", pool, "--prov", prov, "--depth", depth, "--deadline", 75 if q else 840]))
+        for (extra, dq, dt) in CAT_EXTRA.get(r, []):
+            for (pool, prov) in ([(pools[0], 0)] if q else [(pools[0], 0), (pools[-1], 1)]):
+                jobs.append(("pipex_cat", ["--row", r, "--oracle", oracle, "--pool", pool, "--prov", prov, "--depth", dq if q else dt, "--deadline", 75 if q else 840] + extra))
     return jobs
 
 _CAT_BOUNDS = {"quick": "61 catalogue rows (the first 32: 29 pipes, the queue pair also without an event loop for the source, 2 chains; then 29 further rows with the generic oracles only, depth 4, input-subpipe rows depth 5): every sequence of up to 5 operations (4 for buffer and the 3-pipe chain) with pool depth 0 and managers provided by the probes, and up to 4 (3) operations with pool depth 2 and managers provided by the sinks (shared managers), over the row's alphabet "
+                        "(rows added later: crop / trickplay / setrap / multicat_probe / discard_blocking / even / stream_switcher with their option setters and getters, blit, videocont, audiocont, grid, sync (reference input + input subpipes; "
+                        "each also from a start state in which a subpipe is allocated, the output connected and a definition given, over a sub-alphabet - see CAT_EXTRA), audio_split, audio_merge, rtp_h264, rtp_mpeg4) "
                         "(set_flow_def F1/F2/foreign, 5 input shapes incl. empty, 3+2-segment and shared-segment buffers, set_output S0/S1(rejecting)/NULL, sink answer toggle, flush, "
                         "every option setter x 3-4 values, subpipe alloc/set_output/release, pump dispatch, an upstream request whose answer makes the upstream push a buffer, "
                         "a probe that tears the subpipes down on source_end, release), followed by release of everything and a run of the event loop to quiescence",
@@ -460,7 +482,11 @@ _CAT_NOTE = ("Pipe-private state is not readable from outside, so histories are 
              "dejitter (main input; and main + input subpipes) multicat_probe aes_decrypt (AES-128 key / pass-through) dtsdi ts_pid_filter ts_pcr_interpolator ts_tstd (not C20) "
              "ts_decaps ts_pes_decaps ts_psi_merge ts_psi_join(input subpipes) telx_framer s302_framer opus_framer void_source sine_wave_source (sources, mock timers; not C20) "
              "separate_fields row_split ntsc_prepend crop (pictures) rtp_pcm_pack audio_copy (sound) video_blank audio_blank subpic_schedule (main input; and main + input subpipes) "
-             "play(input subpipes); other pipe types are outside the bound.")
+             "play(input subpipes) blit(background on the main pipe, pictures to blit on input subpipes with rect / alpha / alpha threshold / z-index options; the probe asks for every picture the pipe can prepare) "
+             "videocont audiocont (reference input on the main pipe, input subpipes, input selection by subpipe command and by name, latency / tolerance / crossblend options) grid (grid input + grid output) "
+             "sync (pictures on the main pipe, sound on the input subpipes, clock and timers) audio_split (+2 output subpipes) audio_merge (input subpipes) rtp_h264 rtp_mpeg4; "
+             "C04 on the picture rows crop, blit, videocont, grid additionally requires every delivered picture to have the hsize / vsize of the last definition the sink accepted; "
+             "other pipe types are outside the bound.")
 
 def _c01_uref_jobs(tier):
     q = tier == "quick"
